@@ -5,12 +5,10 @@ import MythVerif.Proofs.WsQueueTsoTac
 namespace MythVerif.WsqTso
 open MythVerif.Wsq
 
-set_option maxHeartbeats 4000000 in
 /-- a buffered shift entry is the `memmove` of the logical window by the pending offset -/
 theorem shift_head (s : St) (h : Inv s) (lo hi off : Int) (rest : List Sto) (hb : s.bufO = .shift lo hi off :: rest) :
     lo = s.lb ∧ hi = s.lt ∧ off = s.sh ∧ resetting s.opc = true := by
   cases hpc : s.opc
-  all_goals (cases h; simp only [hpc, ownerLocked, carry, resetting, ownerFlight] at *)
-  all_goals tso_absurd
+  all_goals tso_shapes_core h hpc
 
 end MythVerif.WsqTso
